@@ -235,7 +235,7 @@ def run(tier, seed):
                 break
             res = common.validate_trace("Trace_Reader", "Trace_Reader.cfg", rest, timeout=1500)
     # ---- the same reads, state by state, against the reader machine (ContainerReader.tla) where the driver knows the abstract file
-    mc = common.run_tlc("MC_ContainerReader", "MC_ContainerReader.cfg", workers=4, timeout=900)
+    mc = common.run_tlc("MC_ContainerReader", "MC_ContainerReader.cfg" if tier == "quick" else "MC_ContainerReader_thorough.cfg", workers=8, timeout=2400, xmx="8g")
     common.require_tlc_ok(mc, "MC_ContainerReader (the reader machine obeys C17's rules on all small damaged files)")
     mm = common.run_tlc("MC_ContainerReader", "MC_ContainerReader_mut.cfg", workers=2, timeout=300)
     if "is violated" not in mm["out"]:
